@@ -7,8 +7,8 @@ from . import common
 
 ID = "C03"
 LEVEL = "exploration"
-BUDGET = {"quick": 320, "thorough": 6400}
-WALL_CAP = {"quick": 420, "thorough": 3300}
+BUDGET = {"quick": 2400, "thorough": 48000}
+WALL_CAP = {"quick": 600, "thorough": 5400}
 RULE = ("case = generated well-formed 2D/3D plotfile (scattered/non-monotone layouts, stale-level and long "
         "refinement-ratio header variants, special payloads only when the options do not read data); per world ALL 16 "
         "option combinations (binary_headers, binary_shape, binary_data, boxes_coordinates) x every level limit in "
